@@ -11,7 +11,7 @@ JCov(c) == IF c.fmt = 1 THEN [fmt |-> 1, glyphs |-> c.glyphs]
            ELSE [fmt |-> 2, ranges |-> [i \in DOMAIN c.ranges |-> <<c.ranges[i][1], c.ranges[i][2], c.ranges[i][3]>>]]
 JCd(c) == IF c.fmt = 1 THEN [fmt |-> 1, start |-> c.start, values |-> c.values]
           ELSE [fmt |-> 2, ranges |-> [i \in DOMAIN c.ranges |-> <<c.ranges[i][1], c.ranges[i][2], c.ranges[i][3]>>]]
-V(v) == <<v[1], v[2], v[3]>>
+V(v) == <<v[1], v[2], v[3], v[4], v[5], v[6], v[7], v[8]>>
 A(a) == IF Len(a) = 0 THEN <<>> ELSE <<a[1], a[2], a[3]>>
 CovSize(c) == IF c.fmt = 1 THEN Len(c.glyphs) ELSE IF Len(c.ranges) = 0 THEN 0 ELSE c.ranges[Len(c.ranges)][3] + c.ranges[Len(c.ranges)][2] - c.ranges[Len(c.ranges)][1] + 1
 
